@@ -124,11 +124,15 @@ def exec_prog(prog, log, cms=None):
             raise ValueError(op)
 
 
-def run_impl(prog, early=False):
+def run_impl(prog, early=False, lazy=False):
     saved = dict(vars(fl.settings))
     try:
         for k in KEYS:
             setattr(fl.settings, ATTR[k], pools()[k][0])
+        if lazy:
+            # the default factory manager is created lazily: until something reads it the attribute holds None, and a context
+            # that names `factory_manager` must put exactly that back
+            fl.settings._factory_manager = None
         log, exc = [], 0
         cms = None
         if early:
@@ -145,7 +149,7 @@ def run_impl(prog, early=False):
             setattr(fl.settings, k, v)
 
 
-def spec(prog):
+def spec(prog, lazy=False):
     """the property as a reference interpreter: save named values on entry, put them back on every exit path"""
     log = []
 
@@ -175,6 +179,8 @@ def spec(prog):
                 p = p[3]
 
     s = [0] * len(KEYS)
+    if lazy:
+        s[KEYS.index("factory_manager")] = -1          # `None`: no pool value
     exc = go(prog, s)
     return (1 if exc else 0), s, log
 
@@ -250,8 +256,8 @@ def key(case):
 
 def oracle(case):
     prog = case["prog"]
-    exc, final, log = run_impl(prog, early=bool(case.get("early")))
-    e_exc, e_final, e_log = spec(prog)
+    exc, final, log = run_impl(prog, early=bool(case.get("early")), lazy=bool(case.get("lazy")))
+    e_exc, e_final, e_log = spec(prog, lazy=bool(case.get("lazy")))
     if exc != e_exc:
         return False, f"exception propagated: {exc}, expected {e_exc}"
     if final != e_final:
@@ -294,6 +300,13 @@ def correspond(ctx):
         ok, detail = oracle(case) if kind == "enumerated" or st.evaluations % 5 == 0 else (True, "")
         if not ok:
             mism.append({"case": case, "violation": True, "detail": detail, "what": detail})
+        if f["ctx"] > 0 and (kind == "enumerated" or st.evaluations % 3 == 0):
+            # the same program started while the default factory manager has not been created yet
+            st.count("lazy-factory-manager")
+            ok, detail = oracle({"prog": p, "lazy": True})
+            if not ok:
+                d = "started before the default factory manager was created (the attribute holds None): " + detail
+                mism.append({"case": {"prog": p, "lazy": True}, "violation": True, "detail": d, "what": d})
         if f["ctx"] > 0 and (kind == "enumerated" or st.evaluations % 2 == 0):
             # the same program with its context managers created before the program starts
             st.count("early-created")
@@ -310,4 +323,7 @@ def search(ctx):
             ok, d = oracle({"prog": p, "early": early})
             if not ok:
                 return [({"prog": p, "early": early}, d)]
+        ok, d = oracle({"prog": p, "lazy": True})
+        if not ok:
+            return [({"prog": p, "lazy": True}, d)]
     return []
